@@ -124,3 +124,9 @@ def run(ctx):
         if o.rule in ('C13.NOREAD', 'C13.WRITES'):
             o.rule = 'C14.' + o.rule.split('.', 1)[1] + '(=C13)'
             ctx.obligations.append(o)
+    # "for every non-hardened sub-path ... refuses hardened derivation": sub-paths given to by_path on a wallet over an
+    # exported node are applied component by component from that node (nothing dropped or re-rooted), and path
+    # look-up is the fold of ckd (whose hardened refusal is C14.GUARD)
+    from . import C17
+    C17.check_bypath(ctx, 'C14.BYPATH(=C17)')
+    C17.check_fold(ctx, 'C14.FOLD(=C17)')
